@@ -632,6 +632,7 @@ def tree_features(prog):
             elif s[0] == "lambda":
                 walk(s[4])
             elif s[0] in ("for",):
+                enum_vars.add(s[1])          # the loop variable of `lo..<hi` has an interval type, treated like an enum
                 stmts(s[4])
             elif s[0] == "while":
                 stmts(s[3])
